@@ -243,3 +243,18 @@ func solveQuick(query string, tag string, quickS int) SolveResult {
 	r.Tried = []string{fmt.Sprintf("%s:%s:%.2fs", r.Solver, r.Status, r.Seconds)}
 	return r
 }
+
+// solveWith runs one named solver.
+func solveWith(query, tag, solverName string, timeoutS int) SolveResult {
+	dir := scratchDir()
+	file := filepath.Join(dir, fmt.Sprintf("q_%d_%s.smt2", os.Getpid(), tag))
+	os.WriteFile(file, []byte(query), 0o644)
+	defer os.Remove(file)
+	sd := solvers[0]
+	for _, s := range solvers {
+		if s.name == solverName {
+			sd = s
+		}
+	}
+	return runOne(context.Background(), sd, file, timeoutS)
+}
